@@ -6,7 +6,11 @@ compiler's supported kind, `type(compiler).resulting_problem_kind(P.kind, ck)` m
 means no declared kind exists) and `result.problem.kind <= declared` (the library's own `<=`).  For factory pipelines over
 ordered subsets (size <= 3) of the compilation kinds, `Factory.Compiler(problem_kind=P.kind, compilation_kinds=...)` must
 not fail with an internal error and running the selected pipeline on P must never be refused by one of its own stages
-("cannot handle this kind of problem")."""
+("cannot handle this kind of problem").  Pipeline requests are ordered pairs / triples over *all* compilation kinds that
+have a registered single-agent compiler (the nine classical removers/grounder plus TIMED_TO_SEQUENTIAL,
+DURATIVE_ACTIONS_TO_PROCESSES, INTERPRETED_FUNCTIONS_REMOVING); every ordered pair is requested at least twice per quick run, on
+classical and durative problems drawn for the request (mostly inside the supported kind of every requested stage, with the
+features that give the stages work - object fluents, conditional effects, undefined numerics - forced in part of the cases)."""
 from vk import env as _env  # noqa: F401
 from vk.core import rng_for, simple_plan, h
 from vk.mon import compile_wf as W
@@ -28,7 +32,8 @@ RULE = (
     "case = (compiler, generated problem recipe inside the compiler's supported_kind(), adversarial identifiers) or (ordered subset of "
     "<= 3 compilation kinds, generated problem). evaluations = compile calls / pipeline runs judged. distinct_nontrivial = distinct "
     "(compiler, input kind) pairs with a returned compilation, plus distinct (compilation-kind sequence, input kind) pairs of pipelines "
-    "that were selected and run; thorough additionally runs every example problem of unified_planning.test.examples through every "
+    "that were selected and run (requests: every ordered pair of the 12 compilation kinds with a registered single-agent compiler, "
+    "walked through in turn, plus random ordered triples; inputs: classical and durative problems drawn for the request); thorough additionally runs every example problem of unified_planning.test.examples through every "
     "compiler that supports it."
 )
 ASSUMPTIONS = [
@@ -38,11 +43,24 @@ ASSUMPTIONS = [
 
 SLOTS = W.TARGET_ORDER + ["pipeline", "pipeline", "pipeline", "qurm", "gcrm"]  # F25/F26 anchors get a double share
 N = {"quick": 1500, "thorough": 16000}
+# pipeline requests: ordered pairs and triples over *all* compilation kinds with a registered single-agent compiler
+KINDS = W.ALL_PIPELINE_KINDS
+PAIRS = [(a, b) for a in KINDS for b in KINDS if a != b]
+# a second range of case keys (indices >= EXTRA_BASE) holds additional pipeline requests only, so that every ordered pair
+# is requested at least twice per quick run (once from each range) without changing the single-compiler cases
+EXTRA_BASE = 1000000
+N_EXTRA = {"quick": len(PAIRS), "thorough": 8 * len(PAIRS)}
 SHARD_TIMEOUT = {"quick": 600, "thorough": 5400}
 
 
 def plan(tier, seed):
-    return simple_plan(PROPERTY, tier, seed, N["quick"], N["thorough"], shards_quick=16)
+    from vk.core import chunk
+
+    specs = simple_plan(PROPERTY, tier, seed, N["quick"], N["thorough"], shards_quick=8)
+    extra = [f"{PROPERTY}:{seed}:{EXTRA_BASE + j}" for j in range(N_EXTRA[tier])]
+    for spec, ch in zip(specs, chunk(extra, len(specs))):
+        spec["cases"] = spec["cases"] + ch
+    return specs
 
 
 def run_shard(spec, res):
@@ -61,7 +79,25 @@ def replay(witness, res):
 
 def target_of(key):
     i = int(key.rsplit(":", 1)[1])
+    if i >= EXTRA_BASE:
+        return "pipeline"
     return SLOTS[i % len(SLOTS)]
+
+
+def pipeline_request(key):
+    """The compilation-kind sequence requested by a pipeline case.  Pipeline cases are numbered (ordinal q); three out of
+    five are ordered pairs taken in turn from the list of all ordered pairs (rotated by the seed), so that a run walks through
+    every ordered pair; the others are random ordered triples.  The extra key range walks through the pairs once more."""
+    _, seed, i = key.rsplit(":", 2)
+    i = int(i)
+    rot = 37 * (int(seed) if seed.lstrip("-").isdigit() else 0)
+    if i >= EXTRA_BASE:
+        return list(PAIRS[(i - EXTRA_BASE + rot + 61) % len(PAIRS)])
+    per = [k for k, t in enumerate(SLOTS) if t == "pipeline"]
+    q = (i // len(SLOTS)) * len(per) + per.index(i % len(SLOTS))
+    if q % 5 < 3:
+        return list(PAIRS[((q // 5) * 3 + q % 5 + rot) % len(PAIRS)])
+    return rng_for(key, "pipeline").sample(KINDS, 3)
 
 
 def judge_single(res, label, comp_cls, ck_name, pb, in_kind, wbase, id_for_nt):
@@ -119,7 +155,8 @@ def judge_single(res, label, comp_cls, ck_name, pb, in_kind, wbase, id_for_nt):
 
 def run_case(key, tier, res):
     target = target_of(key)
-    case = W.build_case(key, target)
+    cks = pipeline_request(key) if target == "pipeline" else None
+    case = W.build_case(key, target, require=cks)
     res.count("regenerated_outside_kind", case["rejected"])
     if case["pb"] is None:
         res.count("no_recipe_inside_kind:" + target)
@@ -129,22 +166,24 @@ def run_case(key, tier, res):
     if target != "pipeline":
         judge_single(res, target, W.compiler_class(target), W.TARGETS[target][2], pb, kind, wbase, h(rec))
         return
-    judge_pipeline(res, key, pb, env, kind, wbase)
+    res.count("pipeline_input:every-stage-supports-input-kind" if case.get("all_stages_support") else "pipeline_input:some-stage-only-fits-chained-kind")
+    if any(a.__class__.__name__ == "DurativeAction" for a in pb.actions):
+        res.count("pipeline_input:durative")
+    judge_pipeline(res, key, pb, env, kind, wbase, cks)
 
 
-def judge_pipeline(res, key, pb, env, kind, wbase):
+def judge_pipeline(res, key, pb, env, kind, wbase, cks):
     from unified_planning.engines.mixins.compiler import CompilationKind
     from unified_planning.exceptions import UPNoSuitableEngineAvailableException, UPUsageError
     from vk.mon.c32_factory import innermost_site
 
-    rng = rng_for(key, "pipeline")
-    n = rng.choice([1, 2, 2, 3, 3])
-    present = [c for c in W.PIPELINE_KINDS if rng.random() < 0.8]
-    cks = rng.sample(present, min(n, len(present))) if present else [rng.choice(W.PIPELINE_KINDS)]
     wbase = dict(wbase, compilation_kinds=cks, input_kind=sorted(kind.features))
     res.mon()
     res.case()
     res.count(f"pipeline_len:{len(cks)}")
+    for x in range(len(cks)):
+        for y in range(x + 1, len(cks)):
+            res.count(f"pipeline_requested:{cks[x]}>{cks[y]}")
     try:
         pipe = env.factory.Compiler(problem_kind=kind, compilation_kinds=[CompilationKind[c] for c in cks])
     except UPNoSuitableEngineAvailableException:
@@ -164,6 +203,8 @@ def judge_pipeline(res, key, pb, env, kind, wbase):
         )
         return
     res.count("pipeline:selected")
+    for a, b in zip(cks, cks[1:]):
+        res.count("pipeline_adjacent:" + a + ">" + b)
     stages = [c.name for c in pipe._compilers]
     ocs = W.observe_compile(pipe, pb)
     oc = ocs[-1]
@@ -182,6 +223,19 @@ def judge_pipeline(res, key, pb, env, kind, wbase):
     e = oc[2]
     if isinstance(e, UPUsageError) and "cannot handle this kind of problem" in str(e):
         stage = str(e).split(" cannot handle")[0]
+        # root cause: when an earlier stage produced a feature it does not declare (first half of the property, judged per
+        # compiler with its own mechanism string) and the refusing stage lacks exactly that feature, the refusal is that
+        # defect seen through the pipeline; otherwise the stages honour their declarations and the chaining itself is at fault
+        hits, missing = attribute_rejection(pipe, cks, pb)
+        if hits:
+            res.count("pipeline:refusal-caused-by-undeclared-feature-of-a-stage")
+            for label, f, mech in hits:
+                res.violation(
+                    mech,
+                    f"{label}: compiled problem has {f}, declared resulting kind does not; seen through pipeline {stages}: {e}",
+                    dict(wbase, stages=stages, refused_features=missing),
+                )
+            return
         res.violation(
             f"pipeline-rejects-intermediate:{stage}",
             f"pipeline {stages} selected by the factory for this problem kind refused an intermediate problem: {e}",
@@ -192,6 +246,40 @@ def judge_pipeline(res, key, pb, env, kind, wbase):
     res.count("pipeline:stage-failed-after-accepting")
     res.count(f"pipeline_other:{oc[1] if isinstance(oc[1], str) else 'documented-rejection'}")
     res.nt(("pipeline-partial", cks, sorted(kind.features)))
+
+
+def attribute_rejection(pipe, cks, pb):
+    """Re-runs the stages of a refused pipeline one by one. -> ([(stage label, feature, mechanism)] for the features that a
+    stage's compiled problem has beyond that stage's declared resulting kind *and* that the refusing stage does not support,
+    features the refusing stage lacks)."""
+    from unified_planning.engines.mixins.compiler import CompilationKind
+
+    cur = pb
+    undeclared = []
+    try:
+        for eng, ckn in zip(pipe._compilers, cks):
+            C = type(eng)
+            kin = cur.kind
+            if not C.supports(kin):
+                missing = set(kin.features) - set(C.supported_kind().features)
+                seen, hits = set(), []
+                for label, f, mech in undeclared:
+                    if f in missing and mech not in seen:
+                        seen.add(mech)
+                        hits.append((label, f, mech))
+                return hits, sorted(missing)
+            oc = W.observe_compile(C(), cur)[-1]
+            if oc[0] != "returned" or oc[1].problem is None:
+                return [], []
+            cp = oc[1].problem
+            label = W.LABEL_OF_CLASS.get(C.__name__, C.__name__)
+            declared = C.resulting_problem_kind(kin, CompilationKind[ckn])
+            for f in sorted(set(cp.kind.features) - set(declared.features)):
+                undeclared.append((label, f, W.feature_mechanism(label, f, kin, cur)))
+            cur = cp
+    except Exception:
+        pass
+    return [], []
 
 
 def run_examples(res, only=None):
@@ -229,6 +317,15 @@ def thresholds(m):
         out.append(f"fewer than 40 factory pipelines selected ({c.get('pipeline:selected', 0)})")
     if c.get("pipeline:ran", 0) < 20:
         out.append(f"fewer than 20 factory pipelines ran to the end ({c.get('pipeline:ran', 0)})")
+    adjacent = len([k for k in c if k.startswith("pipeline_adjacent:")])
+    if adjacent < 90:
+        out.append(f"fewer than 90 distinct ordered pairs of adjacent compilation kinds among the selected pipelines ({adjacent} of {len(PAIRS)})")
+    if c.get("pipeline_input:durative", 0) < 40:
+        out.append(f"fewer than 40 pipeline requests on durative problems ({c.get('pipeline_input:durative', 0)})")
+    for first in ("USERTYPE_FLUENTS_REMOVING", "QUANTIFIERS_REMOVING", "CONDITIONAL_EFFECTS_REMOVING"):
+        for second in W.TEMPORAL_KINDS:
+            if c.get(f"pipeline_requested:{first}>{second}", 0) < 1:
+                out.append(f"no pipeline request with {first} before {second}")
     if c.get("pipeline_len:2", 0) + c.get("pipeline_len:3", 0) < 60:
         out.append("fewer than 60 pipeline requests of length >= 2")
     if len(m["nontrivial"]) < 200:
